@@ -45,7 +45,7 @@ WEIGHTS = {
 
 def cases(tier, seed):
     rng = random.Random(f"C13/{seed}")
-    nmax, count = (7, 14000) if tier == "quick" else (9, 80000)
+    nmax, count = (7, 14000) if tier == "quick" else (9, 50000)
     cl = [("rand", 3), ("rand-wide", 3), ("dense-neg", 4), ("gadget", 3), ("inputs", 1), ("overlap-maa", 0.3), ("rings", 2)]
     nets = gen.corpus() + [gen.draw(rng, cl, nmax) for _ in range(count)]
     nets += [gen.model_net(f) for f in gen.models_up_to(10 if tier == "quick" else 14)]
